@@ -32,6 +32,8 @@ pub struct SnapState {
     pub send_max_stream_id: u32,
     pub recv_init_window: u32,
     pub send_init_window: u32,
+    /// streams whose END_STREAM h2 has processed (logged once, for C07's "complete message received")
+    pub recv_es_logged: std::collections::BTreeSet<u32>,
 }
 
 #[derive(Clone)]
@@ -238,6 +240,10 @@ impl SnapHook {
         }
 
         for x in &s.streams {
+            let recv_ended = x.state.starts_with("HalfClosedRemote") || x.state.starts_with("Closed(EndStream") || x.state.starts_with("Closed(ErrorAfterEndStream");
+            if recv_ended && st.recv_es_logged.insert(x.id) {
+                crate::sim::log(0, crate::trace::EvK::SnapFact { side, what: "recv_end_stream_processed", v: x.id as i64 });
+            }
             // keep only the variant shape for state-coverage accounting
             let shape: String = x.state.chars().take_while(|c| *c != '(' && *c != '{').collect::<String>().trim().to_string();
             if st.distinct_states.len() < 64 {
